@@ -1,5 +1,6 @@
 import Ecal.Model.ParserWF
 import Ecal.Model.TokenChannel
+import Ecal.Lemmas.ChanLemmas
 import Ecal.Gen.C07
 import Ecal.Lemmas.LexTerminates
 import Ecal.Lemmas.ParserMain
@@ -51,7 +52,11 @@ theorem parse_never_panics (ts : List Tok) : (parseToks ts).2 ≠ some .panic :=
   · unfold parseToks; rw [h]; simp; exact hp
 
 /-- **parse_error_xor_tree.** For every token list the result is either a tree and no error, or no
-    tree and a parser error (kind, line, column) — never both, never neither, never a crash, never
+    tree and a parser error (kind, line, column). "Never both, never neither" holds BY CONSTRUCTION of the model
+    (`parseToksWith` builds the pair from one `Res`; the model is a short-circuit error monad, so the hazard "a
+    later statement overwrites an earlier error" is not representable — for parser.go this half is TESTED: exact
+    error kind+line+col, BOTH/NEITHER, NIL children in the correspondence; `errors_short_circuit` searches the
+    refuting source patterns). What the invariant proves: the error is never the nil-dereference marker and never
     "out of fuel". -/
 theorem parse_error_xor_tree (ts : List Tok) :
     (∃ t, parseToks ts = (some t, none)) ∨ (∃ kind line col, parseToks ts = (none, some (.perr kind line col))) := by
@@ -211,47 +216,41 @@ skeleton (`Gen/C07.lean`, regenerated on every run): package parser has exactly 
 starting `(*lexer).run`), `close(l.tokens)` is the last statement of `run`, `ParseWithRuntime` defers
 `p.tokens.drain()` and `drain` is `for range b.tokens {}` in the calling goroutine. -/
 
-/-- **source_selects_sync.** The extracted skeleton selects the synchronous-drain transition system, with one
-    producer goroutine whose last channel operation is the close. (A `decide` over generated facts: if the
-    source changes — e.g. the drain is moved into a goroutine — this theorem no longer checks.) -/
+/-- **source_selects_sync** (regenerated, three-valued source facts; only a REFUTED fact breaks this). The
+    extractor finds the drain by what it does — a loop, reachable from a defer of `ParseWithRuntime` through
+    same-package calls and closures, which receives from the token channel and whose only way out is the
+    closed channel — and the close by being the last action of the producer goroutine's body in any spelling;
+    a design without any goroutine alive during parsing is accepted. Refuting clauses: a `go` statement on the
+    drain path (asynchronous drain), no drain although a producer goroutine exists, a second way out of the
+    receive loop (select, timer, loop condition, unguarded break / return), statements after the close / an
+    early return skipping it. "unknown" is not an obligation (note + amplified search in the run). -/
 theorem source_selects_sync :
-    Ecal.Gen.C07.ok = true ∧ modeOf Ecal.Gen.C07.drainMode = some Mode.sync ∧ Ecal.Gen.C07.goStatements = 1 ∧
-    Ecal.Gen.C07.goWhere = "Lex" ∧ Ecal.Gen.C07.closeLastInRun = true ∧ Ecal.Gen.C07.deferDrain = true := by decide
+    Ecal.Gen.C07.syncFact ≠ "no" ∧ Ecal.Gen.C07.closeFact ≠ "no" := by decide
 
-/-- measure of what is still to happen once the consumer has stopped parsing -/
-def todo (s : St) : Nat :=
-  s.toSend + (match s.prod with | .running => 2 | .closed => 1 | .terminated => 0) +
-  (if s.cons = .draining then 1 else 0)
+/-- **no_package_state_written** (regenerated source fact). Package parser writes no package-level variable
+    outside `init()`: no state survives a call or is shared between concurrent calls (the class of the old
+    astNodeMap rewrite, cbd1b2f, and of an unlocked package-level cache). Writes through aliases / method calls
+    on package-level objects are not tracked (the concurrent-callers case of the run is the test for those). -/
+theorem no_package_state_written : Ecal.Gen.C07.pkgWrites = [] := by decide
 
-/-- invariant of the synchronous drain: no helper ever exists, and a returned call means a closed channel -/
-def SyncInv (s : St) : Prop := s.helper = false ∧ (s.cons = .returned → s.prod ≠ .running)
+/-- **errors_short_circuit** (regenerated source fact; the obligation behind the model's error monad).
+    The MODEL is a short-circuit error monad: after an error nothing else happens, so "tree xor error", "the first
+    error wins" and "no child is appended after an error" hold in the model BY CONSTRUCTION. parser.go instead
+    has `err` variables and a guard per site. The extractor searches the refuting patterns of that discipline
+    (an error result of a same-package call discarded as an expression statement — the defect classes of
+    c1d34c3 and be7569d; `err` assigned in a loop and overwritten by the next iteration untested — 486e4c7);
+    finding one refutes the fact. Their absence does NOT establish the discipline ("unknown"): for parser.go
+    xor / first-error-wins are TESTED by the correspondence (exact error kind+line+col, BOTH/NEITHER, NIL). -/
+theorem errors_short_circuit : Ecal.Gen.C07.errFact ≠ "no" := by decide
 
-theorem step_inv (s s' : St) (e : Ev) (h : step .sync s e = some s') (hi : SyncInv s) : SyncInv s' := by
-  obtain ⟨hh, hr⟩ := hi
-  cases e <;> simp only [step] at h <;> (repeat' split at h) <;>
-    simp_all [SyncInv] <;> (subst h; simp_all)
-
-/-- **producer_done_at_return** (was `no_producer_left`). In the transition system selected by the source
-    (`source_selects_sync`): for every number of tokens, every interleaving and every point at which the parse
-    function stops (any event sequence is allowed, so the consumer may stop after any number of receives), in
-    every state in which `ParseWithRuntime` has returned — in particular AT the return event — no helper
-    goroutine exists and the lexer goroutine is past `close(l.tokens)`, its last statement (`clean`). The drain
-    loop's exit condition is "the channel is observed closed", NOT "the producer is gone": that the two
-    coincide up to the producer's own final `exit` step is the content. -/
-theorem producer_done_at_return (n : Nat) (es : List Ev) (s : St)
-    (h : exec .sync (init n) es = some s) (hr : s.cons = .returned) : clean s = true := by
-  have gen : ∀ (es : List Ev) (s0 s : St), SyncInv s0 → exec .sync s0 es = some s → SyncInv s := by
-    intro es
-    induction es with
-    | nil => intro s0 s hi h; simp [exec] at h; subst h; exact hi
-    | cons e es ih =>
-      intro s0 s hi h
-      simp only [exec] at h
-      split at h
-      · next s1 h1 => exact ih s1 s (step_inv s0 s1 e h1 hi) h
-      · simp at h
-  have := gen es (init n) s (by simp [SyncInv, init]) h
-  simp [clean, this.1, this.2 hr]
+/-- (by construction) In the synchronous-drain system a returned call is `clean`: this RESTATES the guard of the
+    `drainEnd` event (`for range ch` ends when the channel is observed closed) and that mode sync never creates a
+    helper; it is a lemma (`Ecal.Chan.returned_clean`), not a finding about the code. What ties it to the code is
+    `source_selects_sync` (which transition system the source has) and the leak MEASUREMENT; what has content in
+    the model is below: the call does return (`drain_progress`, `drain_bounded`), after the return only the
+    producer's own exit is left (`producer_exits_alone`), and the two other designs fail (negative witnesses). -/
+example (n : Nat) (es : List Ev) (s : St) (h : exec .sync (init n) es = some s) (hr : s.cons = .returned) :
+    clean s = true := returned_clean n es s h hr
 
 /-- **producer_exits_alone.** From a clean state the only thing that can still happen is the producer's own
     `exit` (no partner needed), after which nothing of the parser can move: the goroutine is gone. -/
@@ -324,15 +323,17 @@ def entryAgrees (e : Nat × String × Nat × String × String) : Bool :=
   | some (nm, b, x, l) => nm = e.2.1 && b = e.2.2.1 && nudName x = e.2.2.2.1 && ledName l = e.2.2.2.2
   | none => false
 
-/-- **table_matches_source.** `Parse.table` (the model's grammar table) is exactly the `astNodeMap` of the tree
-    under test, extracted by `harness C07 -tool gen` on every run: every extracted entry has the same node
-    name, binding and null/left denotation in the model, the model has no further entry (ids < 200), the
-    block-start brace entry is the one `instanceOf` uses, and the ids of the error / comment tokens are the
-    ones `nextNode` / `splitComments` test. -/
+/-- **table_matches_source** (regenerated, constants and keyed literals folded). Every entry of the tree's
+    `astNodeMap` which the extractor understood has the same node name, binding and null/left denotation NAME in
+    `Parse.table`; if the whole table was understood, the model has no further entry (ids < 200) and the
+    block-start brace entry is the one `instanceOf` uses; the ids of the error / comment tokens are the ones
+    `nextNode` / `splitComments` test. Entries not understood are no obligation (note). The BODIES of the
+    nd*/ld* functions are hand-transcribed into the model (tied by the correspondence only). -/
 theorem table_matches_source :
-    Ecal.Gen.C07.ok = true ∧ Ecal.Gen.C07.astNodeMap.all entryAgrees = true ∧
-    (List.range 200).all (fun id => (table id).isNone || Ecal.Gen.C07.astNodeMap.any (·.1 = id)) = true ∧
-    Ecal.Gen.C07.blockBrace = (T_LBRACE, "", 0, "nil", "nil") ∧
+    Ecal.Gen.C07.astNodeMap.all entryAgrees = true ∧
+    (Ecal.Gen.C07.tableUnderstood = true →
+      (List.range 200).all (fun id => (table id).isNone || Ecal.Gen.C07.astNodeMap.any (·.1 = id)) = true) ∧
+    (Ecal.Gen.C07.blockBrace = none ∨ Ecal.Gen.C07.blockBrace = some (T_LBRACE, "", 0, "nil", "nil")) ∧
     Ecal.Gen.C07.tokenError = 0 ∧ Ecal.Gen.C07.tokenPreComment = 3 ∧ Ecal.Gen.C07.tokenPostComment = 4 := by decide
 
 /-! ## End to end: source text → lexer → parser, with the token channel -/
@@ -346,10 +347,12 @@ theorem table_matches_source :
        tree is `WellFormed`, strictly well formed (`WellFormedRoot`) and `walkable` by the consumer census — OR
        no tree and an error of one of the six kinds whose position is that of a token of the input, or the
        unpositioned `Unexpected end` (known finding `unexpected-end-unpositioned`);
-    3. in the channel model selected by the source (`source_selects_sync`), started with exactly this number
-       of tokens, whenever `ParseWithRuntime` has returned — under every interleaving and wherever the parser
-       stopped — no helper goroutine exists and the lexer goroutine is past its `close`, after which only its
-       own `exit` is left (`producer_exits_alone`).
+    3. in the channel model selected by the source (`source_selects_sync`), started with this number of tokens,
+       whenever `ParseWithRuntime` has returned no helper goroutine exists and the lexer goroutine is past its
+       `close` (holds for EVERY number of tokens, by the guard of `drainEnd`: `Ecal.Chan.returned_clean`; the
+       token count only says the producer's sends are finitely many; nothing links `consumed` to the receives).
+    By construction of the MODEL (a short-circuit error monad): "never both, never neither" and "the first error
+    wins"; proved with the invariant: no nil dereference, no fuel exhaustion, well-formedness, positions.
     What is NOT proved: that the three models equal lexer.go / parser.go / Go's channel semantics (tested by the
     correspondence runs of C18 and C07 and by the goroutine measurement). -/
 theorem parse_end_to_end (input : List Nat) :
@@ -359,7 +362,7 @@ theorem parse_end_to_end (input : List Nat) :
         ((∃ tk ∈ (lex input).toList, tk.line = l ∧ tk.col = c) ∨ (k = "Unexpected end" ∧ l = 0 ∧ c = 0)))) ∧
     (∀ (es : List Ev) (s : St), exec .sync (init (lex input).size) es = some s → s.cons = .returned →
         clean s = true) := by
-  refine ⟨Ecal.Lex.lexer_always_closes input, ?_, fun es s h hr => producer_done_at_return _ es s h hr⟩
+  refine ⟨Ecal.Lex.lexer_always_closes input, ?_, fun es s h hr => returned_clean _ es s h hr⟩
   rcases parse_error_xor_tree (lex input).toList with ⟨t, ht⟩ | ⟨k, l, c, he⟩
   · exact Or.inl ⟨t, ht, parse_wellformed _ t ht, parse_wellformed_strict _ t ht, parse_walkable _ t ht⟩
   · exact Or.inr ⟨k, l, c, he, error_position_from_input _ k l c he⟩
